@@ -22,7 +22,7 @@ func init() {
 	reg("C13", "C13.I", "E1", "field invariants the reviewed table relies on (parallel slices written only at Start; multi-line buffer keeps its first byte)", 8, ruleReviewedInvariants)
 	reg("C13", "C13.N", "E5", "no receiver-dereferencing node method on a possibly-nil Dig result", 1, ruleNilNodes)
 	reg("C13", "C13.M", "E1+E2", "metric label values (taken from event fields) are made valid UTF-8 before they reach a panicking prometheus Vec method", 4, ruleMetricLabelsSanitized)
-	reg("C13", "C13.P", "E2", "a pointer field the code itself treats as possibly nil is dereferenced in the event path only under a non-nil test", 1, ruleNilPointerFields)
+	reg("C13", "C13.P", "E2", "a pointer field assigned from a constructor that can return nil is dereferenced in the event path only under a non-nil test", 1, ruleNilPointerFields)
 	reg("C13", "C13.F", "E6", "a float an action writes into the event is finite (integer conversion, or parsed with the error checked)", 1, ruleFiniteFloats)
 	reg("C13", "C13.D", "E2", "no integer division or remainder by a value that may be zero (reviewed table otherwise)", 1, ruleActionDivisions)
 	reg("C13", "C13.J", "E2", "the time-out exit of a joining action is unreachable: busy results only while the joining flag is true (same rule as C15.R7)", 1, ruleBusyOnlyWhileJoining)
@@ -906,9 +906,10 @@ func ruleActionBufferViews(c *Ctx, r *Rule) {
 	r.Inst(1)
 }
 
-// ruleNilPointerFields: a pointer field of a plugin's own structs that the code itself treats as
-// possibly nil — it is compared with nil somewhere, or it is assigned the result of a module function
-// that can return the nil constant — is dereferenced in the event path only under a non-nil guard.
+// ruleNilPointerFields: a pointer field of a plugin's own structs that is assigned the result of a
+// module function which can return the nil constant is dereferenced in the event path only under a
+// non-nil guard. (A nil comparison somewhere else is deliberately NOT taken as evidence that the field
+// may be nil: a redundant check added during clean-up must not make every other use an alarm.)
 func ruleNilPointerFields(c *Ctx, r *Rule) {
 	type fkey struct {
 		owner *types.Named
@@ -946,21 +947,6 @@ func ruleNilPointerFields(c *Ctx, r *Rule) {
 		for _, b := range fn.Blocks {
 			for _, in := range b.Instrs {
 				switch x := in.(type) {
-				case *ssa.BinOp:
-					if x.Op != token.EQL && x.Op != token.NEQ {
-						continue
-					}
-					for i, side := range []ssa.Value{x.X, x.Y} {
-						other := []ssa.Value{x.Y, x.X}[i]
-						if !isNilConst(other) || !isPtrToStruct(side.Type()) {
-							continue
-						}
-						if o, f, _, ok := loadedField(stripConv(side)); ok && o != nil && c.inModulePkg(o) {
-							if _, had := maybe[fkey{o, f}]; !had {
-								maybe[fkey{o, f}] = "compared with nil in " + c.fnName(fn)
-							}
-						}
-					}
 				case *ssa.Store:
 					if !isPtrToStruct(x.Val.Type()) {
 						continue
@@ -982,6 +968,7 @@ func ruleNilPointerFields(c *Ctx, r *Rule) {
 	nDeref := 0
 	for _, fn := range scope {
 		n := 0
+		perField := map[string]int{}
 		for _, b := range fn.Blocks {
 			for _, in := range b.Instrs {
 				var recv ssa.Value
@@ -1014,7 +1001,8 @@ func ruleNilPointerFields(c *Ctx, r *Rule) {
 					continue
 				}
 				nDeref++
-				n++
+				perField[o.Obj().Name()+"."+f]++
+				n = perField[o.Obj().Name()+"."+f]
 				r.Inst(1)
 				guarded := false
 				want := c.path(stripConv(recv))
